@@ -125,6 +125,85 @@ func c15Nil(c *core.Ctx) {
 		c.Floor("ToECDSAPub-call-sites", n, 2)
 	})
 
+	c.Run("stale-length-loops", func() {
+		// a loop that indexes a slice field with a counter, shrinks or replaces that field in its body, but is bounded by a length read before
+		// the loop runs past the end (index out of range = process crash in the block/confirm receive loops)
+		scanned, loops := 0, 0
+		for _, fn := range c.SrcFuncs {
+			rel := core.RelPkg(fn)
+			if (rel != "network" && rel != "network/p2p") || isTestHelper(c, fn) {
+				continue
+			}
+			scanned++
+			for _, h := range fn.Blocks {
+				ifi, isIf := h.Instrs[len(h.Instrs)-1].(*ssa.If)
+				if !isIf {
+					continue
+				}
+				body, header := core.LoopOf(h)
+				if body == nil || header != h {
+					continue
+				}
+				bo, isBo := ifi.Cond.(*ssa.BinOp)
+				if !isBo || (bo.Op != token.LSS && bo.Op != token.GTR && bo.Op != token.LEQ && bo.Op != token.GEQ) {
+					continue
+				}
+				// the bound: the operand that is not the loop-carried counter
+				var bound ssa.Value
+				for _, op := range []ssa.Value{bo.X, bo.Y} {
+					if phi, isPhi := op.(*ssa.Phi); isPhi && phi.Block() == h {
+						continue
+					}
+					bound = op
+				}
+				if bound == nil {
+					continue
+				}
+				bi, isInstr := bound.(ssa.Instruction)
+				if !isInstr || body[bi.Block()] {
+					continue // recomputed every iteration (or a parameter/constant)
+				}
+				// bound = len(load of field F) computed before the loop
+				var f *types.Var
+				for x := range core.Slice(bound) {
+					if call, isCall := x.(*ssa.Call); isCall {
+						if b, isB := call.Call.Value.(*ssa.Builtin); isB && b.Name() == "len" {
+							for y := range core.Slice(call.Call.Args[0]) {
+								if fv := core.FieldOf(y); fv != nil {
+									if _, isSl := fv.Type().Underlying().(*types.Slice); isSl {
+										f = fv
+									}
+								}
+							}
+						}
+					}
+				}
+				if f == nil {
+					continue
+				}
+				loops++
+				// does the body assign F and index F?
+				assigns, indexes := false, false
+				for b := range body {
+					for _, in := range b.Instrs {
+						switch x := in.(type) {
+						case *ssa.Store:
+							if core.FieldOf(x.Addr) == f {
+								assigns = true
+							}
+						case *ssa.IndexAddr:
+							if core.SliceHasField(core.Slice(x.X), f) {
+								indexes = true
+							}
+						}
+					}
+				}
+				c.Check("stale-length/"+shortFn(fn)+"#"+f.Name(), "bounds", !(assigns && indexes), ifi.Pos(), "%s indexes %s in a loop bounded by a length read before the loop although the body assigns %s: the bound is stale after the first shrink", shortFn(fn), f.Name(), f.Name())
+			}
+		}
+		c.Check("stale-length/scan", "bounds", scanned > 100, token.NoPos, "%d functions of network and network/p2p scanned, %d loops bounded by a pre-computed length of a slice field", scanned, loops)
+	})
+
 	c.Run("maybe-nil-results", func() {
 		// functions of the network packages with a single pointer result, at least one `return nil` and at least one other return
 		type cand struct {
